@@ -192,7 +192,18 @@ TOut ==
                    ELSE [x \in DOMAIN seen \cup {ev.ckey} |-> IF x = ev.ckey THEN txt ELSE seen[x]]
   /\ UNCHANGED api /\ l' = l + 1
 
-Next == TApi \/ TOut
+\* Prefilled(fmt, echoIn, echoOut, slotPresent): the input already contains result blocks of a spectrum generator
+\* (LOWEN, SPhenoLowEnergy, GM2CalcOutput with further entries).  The SLHA output must echo the input blocks
+\* unchanged: every line except the result entries of the selected format itself (and SPINFO) is the same, in order.
+TPrefilled ==
+  /\ l <= NLines /\ TraceLog[l].e = "Prefilled"
+  /\ LET ev == TraceLog[l]
+         invs == IF ev.produced THEN << I("SLHA:echoPrefilled", ev.echoOut = ev.echoIn),
+                                        I("SLHA:resultWritten", ev.slotPresent) >> ELSE << >>
+     IN viol' = viol \o Failed(invs, l, ev.sig) /\ nchecked' = nchecked + Len(invs)
+  /\ UNCHANGED <<api, seen>> /\ l' = l + 1
+
+Next == TApi \/ TOut \/ TPrefilled
 Spec == Init /\ [][Next]_vars
 TraceReport == l = NLines + 1 => WriteReport(l, viol, [nchecked |-> nchecked])
 =============================================================================
